@@ -275,7 +275,7 @@ func sweepCount(r *vh.Rng) int {
 
 func genOK(r *vh.Rng) *caseJ {
 	cfg, ascii := genCfgOK(r)
-	c := &caseJ{Mode: "ok", Cfg: cfg, InModel: true, ASCII: ascii, Reader: r.PickStr("full", "full", "full", "half", "one")}
+	c := &caseJ{Mode: "ok", Cfg: cfg, InModel: true, ASCII: ascii, Reader: r.PickStr("full", "full", "full", "half", "one", "dataerr")}
 	seg := unhx(cfg.Seg)
 	segLF := bytes.Equal(seg, []byte("\n"))
 	withFull := r.Chance(0.5)
@@ -508,7 +508,7 @@ func genWild(r *vh.Rng) *caseJ {
 	if r.Chance(0.05) {
 		cfg.Rel = hxp(nil, true)
 	}
-	c := &caseJ{Mode: "wild", Cfg: cfg, Reader: r.PickStr("full", "full", "half", "one")}
+	c := &caseJ{Mode: "wild", Cfg: cfg, Reader: r.PickStr("full", "full", "half", "one", "dataerr")}
 	sp := specialsOf(c)
 	var in []byte
 	nseg := r.Between(0, 5)
